@@ -74,7 +74,7 @@ pub fn run_c12(tier: Tier) -> ! {
                     }
                     let max_visits = 2 * (g as u32 + hsa as u32) + 6;
                     let cfg = RCfg { ts, hsa, gap_factor: g, slot_bits: 100, ttr: None, period_div: if (ts + hsa) % 2 == 0 { 8 } else { 4 }, members0: members0.clone(), scripts: vec![], multi: false, mon: RMon::C12, max_visits, join_budget: tier.pick(1, 2) };
-                    cfgs.push((format!("TS{ts} HSA{hsa} G{g} members{members0:?}"), cfg, 60, tier.pick(6.0, 120.0), tier.pick(30_000, 400_000)));
+                    cfgs.push((format!("TS{ts} HSA{hsa} G{g} members{members0:?}"), cfg, 60, tier.pick(60.0, 3000.0), tier.pick(30_000, 400_000)));
                 }
             }
         }
@@ -111,7 +111,7 @@ pub fn run_c12(tier: Tier) -> ! {
         alphabet.push(Sym::Tel(rc::status_req(127, ps), Gap::G33));
         for div in tier.pick(vec![8i64], vec![8, 4]) {
             let cfg = W2Cfg { ts, hsa: 7, gap_factor: 1, baud: 1, slot_bits: 100, ttr: Some(300), period_div: div, alphabet: alphabet.clone(), prefix: vec![], mon: W2Mon::C12R, apps: 0 };
-            w2cfgs.push((format!("replies TS{ts} P=Tsl/{div}"), cfg, tier.pick(7usize, 11), tier.pick(20.0, 300.0), tier.pick(600_000u64, 5_000_000)));
+            w2cfgs.push((format!("replies TS{ts} P=Tsl/{div}"), cfg, tier.pick(7usize, 11), tier.pick(120.0, 6000.0), tier.pick(600_000u64, 5_000_000)));
         }
     }
     for (label, cfg, depth, secs, max_states) in w2cfgs {
@@ -177,7 +177,7 @@ pub fn run_c15(tier: Tier) -> ! {
     let peer = 40u8;
     let ring_variants: Vec<(u8, Vec<u8>)> = vec![(2, vec![]), (2, vec![5]), (3, vec![1, 5])];
     let depth = tier.pick(12usize, 16);
-    let wcap = tier.pick(20.0, 600.0);
+    let wcap = tier.pick(120.0, 6000.0);
     let visits: u32 = tier.pick(6, 9);
     let ttrs: Vec<Option<u32>> = tier.pick(vec![None, Some(256u32)], vec![None, Some(256), Some(1000)]);
     let divs: Vec<i64> = tier.pick(vec![8], vec![8, 3]);
